@@ -5,7 +5,7 @@ From Coq Require Import String ZArith List Bool Lia.
 From DH Require Import Base.Plan Base.Layout Gen.Consts Gen.Layouts Gen.MetaVmdkTables
      Model.MetaCodec Model.MetaQcow2 Model.MetaVhdx Model.MetaVmdk Model.MetaHdrs Model.MetaHdd
      Proofs.MetaCodec Proofs.MetaQcow2 Proofs.MetaVhdx Proofs.MetaVmdk Proofs.MetaVmdkExt Proofs.MetaHdd
-     Proofs.MetaHdrs.
+     Proofs.MetaHdrs Proofs.MetaText.
 Import ListNotations.
 Open Scope list_scope.
 Open Scope Z_scope.
@@ -126,15 +126,37 @@ Print Assumptions C14_vhdx_region_lookup.
 (* VHDX parent locator: UTF-16-LE keys and values at their stored offsets, any number of entries,
    Python dict semantics; enc16 / dec16 are the codec oracle *)
 Theorem C14_locator_roundtrip :
-  forall (enc16 : list Z -> list Z) (dec16 : list Z -> option (list Z)),
-  (forall s, dec16 (enc16 s) = Some s) ->
+  forall (enc16 : list Z -> list Z) (dec16 : list Z -> option (list Z)) (ok : list Z -> Prop),
+  (forall s, ok s -> dec16 (enc16 s) = Some s) ->
   forall type_le kvs pre post o,
-  o = zlen pre -> zlen type_le = 16 -> zlen kvs < 2 ^ 16 ->
+  o = zlen pre -> zlen type_le = 16 -> zlen kvs < 2 ^ 16 -> Forall (kv_texts_ok ok) kvs ->
   kvs_ok enc16 (vhdx_parent_locator_header_size + zlen kvs * vhdx_parent_locator_entry_size) kvs ->
   parent_locator dec16 (buf_reader (pre ++ locator_render enc16 type_le kvs ++ post)) o
   = Ok {| pl_type := uuid_of_bytes_le type_le; pl_entries := dict_of kvs |}.
 Proof. exact locator_roundtrip. Qed.
 Print Assumptions C14_locator_roundtrip.
+
+(* the same with the model's executable UTF-16-LE codec: no codec hypothesis left *)
+Theorem C14_locator_roundtrip_utf16 :
+  forall type_le kvs pre post o,
+  o = zlen pre -> zlen type_le = 16 -> zlen kvs < 2 ^ 16 ->
+  Forall (fun kv => Forall (fun c => scalar c = true) (fst kv) /\ Forall (fun c => scalar c = true) (snd kv)) kvs ->
+  kvs_ok utf16le_encode (vhdx_parent_locator_header_size + zlen kvs * vhdx_parent_locator_entry_size) kvs ->
+  parent_locator utf16le_decode (buf_reader (pre ++ locator_render utf16le_encode type_le kvs ++ post)) o
+  = Ok {| pl_type := uuid_of_bytes_le type_le; pl_entries := dict_of kvs |}.
+Proof. exact locator_roundtrip_utf16. Qed.
+Print Assumptions C14_locator_roundtrip_utf16.
+
+(* the executable codecs are inverse on strings of Unicode scalar values (BMP, astral, combining alike) *)
+Theorem C14_utf16le_roundtrip :
+  forall s, Forall (fun c => scalar c = true) s -> utf16le_decode (utf16le_encode s) = Some s.
+Proof. exact utf16le_roundtrip. Qed.
+Print Assumptions C14_utf16le_roundtrip.
+
+Theorem C14_utf8_roundtrip :
+  forall s, Forall (fun c => scalar c = true) s -> utf8_decode (utf8_encode s) = Some s.
+Proof. exact utf8_roundtrip. Qed.
+Print Assumptions C14_utf8_roundtrip.
 
 (* ---- Parallels HDS header: the v1 / v2 size union ---- *)
 Theorem C14_hds_open_v2 :
